@@ -1,3 +1,4 @@
+import Beetswap.Proofs.ServerSink
 import Beetswap.Proofs.Codec
 import Beetswap.Proofs.Pack
 import Beetswap.Generated
@@ -80,6 +81,21 @@ theorem frames_within_limit (p : List Block) (h : ∀ b ∈ p, blockFieldSize b 
 theorem frames_only_blocks (p : List Block) (m : Message) (hm : m ∈ frames p) :
     m.wantlist = none ∧ m.presences = [] ∧ m.pendingBytes = 0 ∧ m.payload ≠ [] :=
   Proofs.Pack.frames_only_blocks p m hm
+
+end
+
+
+/-! ### At the connection handler: every frame the server half writes, in any run, with any sink -/
+section
+open Beetswap.Proto Beetswap.Frame Beetswap.ServerSink Beetswap.ServerHandler Beetswap.Proofs.ServerSink
+
+/-- C09, outbound, at the handler level: every frame written in any run respects the limit,
+provided every single queued block fits in a frame. -/
+theorem wrote_within_limit (h : H) (ins : List In)
+    (hfit : ∀ b ∈ pendingOf h ++ queuedOf ins, blockFieldSize b ≤ maxMessageSize)
+    (sid : Nat) (m : Message) (hm : Out.wrote sid m ∈ (run h ins).2) :
+    sizeMessage m ≤ maxMessageSize :=
+  Proofs.ServerSink.wrote_within_limit h ins hfit sid m hm
 
 end
 
